@@ -62,6 +62,12 @@ check("C17", "other",
       "AST effect classification of iterator/map loops; SSA entropy taint with DOT-attribute sinks; struct-field coverage of Reversed; may-point-to purity; sibling constant tables",
       "DESIGN.md section 3 (E1, E2, E3), section 4 (C17)")
 
+check("C09", "other",
+      "Grammar half decided for ALL token sequences on the parser automaton embedded in the Go package: at most one operator kind per unparenthesised level (abstract interpretation over rule automata), direct assignment leftmost on every level, non-empty restriction lists with type names, wildcard xor relation, exactly one header and EOF, container parameter types have exactly one scalar element type. Listener half: every insert into a declaration table is dominated by a lookup of the same key whose 'present' branch notifies; 'extend' misuse notified under exactly the stated condition; the collecting error listener is attached to lexer and parser, records on every path, and any recorded error voids the result.",
+      "Trusted: the ANTLR runtime rejects every input the automaton does not derive and delivers notifications to attached listeners; C19 ties the automaton to the .g4.",
+      "observer products and abstract interpretation over per-rule DFAs of the decoded ATN; SSA dominator + access-path analysis of listener callbacks",
+      "DESIGN.md section 3 (E8 R8.4, E5), section 4 (C09)")
+
 _PENDING = "static check not built yet in this round; see DESIGN.md section 4 for the planned clauses"
 for _p in ["C01","C02","C03","C05","C06","C07","C08","C09","C10","C11","C12","C13","C14","C15","C16","C17","C18"]:
     if _p not in CHECKS:
